@@ -30,6 +30,7 @@ ASSUMPTIONS = [
     "float64 session",
     "3D velocity claims on divergence-free states only (mean(u x omega) = mean(u div u) != 0 for compressible states in exact arithmetic)",
     "histories stop (without failure) when the state exceeds 1e3 or becomes non-finite (unstable dt); growth lambda_0*dt*n <= 5",
+    "equilibria: dt is reduced until dt*(|lambda_0| + |N'(u*)|) <= 1, otherwise the fixed point of the ETDRK map itself amplifies rounding noise by many decades per step (measured 2.5e4 per ETDRK2 step for Allen-Cahn at lambda_0*dt = 5)",
 ]
 
 
@@ -323,11 +324,34 @@ def eq_check(case):
     if lam0 * dt > 5 and spec["cls"] not in reg.NO_L_DT:
         spec = dict(spec, dt=5.0 / lam0)
         dt = spec["dt"]
+    eqs = equilibria(spec, case["const"])
+    res.tag("n_equilibria=%d" % len(eqs))
+    # the fixed point of the ETDRK map amplifies rounding noise by about (|e^{z0}| + dt*phi*|N'(u*)|)^stages per
+    # step; the property asks for "growth*dt bounded so that rounding is not amplified": dt*(|lambda_0| + |N'(u*)|) <= 1
+    nf_lin = model.np_nonlin(model.nonlinear_fun(spec))
+
+    def nprime(e):
+        base = np.ones((C,) + (N,) * D) * np.asarray(e, dtype=float).reshape((C,) + (1,) * D)
+        eps = 1e-6 * max(1.0, max(abs(v) for v in e))
+        worst_ = 0.0
+        for c in range(C):
+            dvec = np.zeros_like(base)
+            dvec[c] = eps
+            d_ = (orc.irfftn(nf_lin(orc.rfftn(base + dvec)), N) - orc.irfftn(nf_lin(orc.rfftn(base - dvec)), N)) / (2 * eps)
+            worst_ = max(worst_, float(np.max(np.abs(d_))))
+        return worst_
+
+    leff = abs(lam0) + max([nprime(e) for e in eqs] + [0.0])
+    if abs(dt) * leff > 1.0:
+        if spec["cls"] in reg.NO_L_DT:
+            res.tag("amplifying_fixed_point_skipped")
+            return res
+        spec = dict(spec, dt=float("%.6g" % (1.0 / leff)))
+        dt = spec["dt"]
+        nf_lin = model.np_nonlin(model.nonlinear_fun(spec))
     ok, S = res.lib("construct", reg.build, spec, key=key)
     if not ok:
         return res
-    eqs = equilibria(spec, case["const"])
-    res.tag("n_equilibria=%d" % len(eqs))
     for e in eqs:
         ustar = np.ones((C,) + (N,) * D) * np.asarray(e, dtype=float).reshape((C,) + (1,) * D)
         x = jnp.asarray(ustar)
@@ -337,7 +361,7 @@ def eq_check(case):
                 return res
         y = np.asarray(x)
         amp = max(abs(v) for v in e)
-        g = (1 + math.exp(min(max(lam0 * dt, 0.0), 50))) ** case["n"]
+        g = 8.0 ** case["n"]
         # polynomial nonlinearities: the rounding of the cancelling terms lambda_0 u* and N(u*) scales with their size
         mag = amp + abs(dt) * (abs(lam0) * amp + _poly_mag(spec, amp))
         # inaccuracy of the numerically computed root: the residual of the equilibrium equation at u*
